@@ -67,10 +67,14 @@ def make_project(name, strings, namespaces):
     if namespaces:
         small_en = {"t": "map", "e": [["z", S(strings[0])], ["y", S(["n", "2", "e"])]]}
         small_fr = {"t": "map", "e": [["z", S(strings[-1])], ["y", S(["n", "2", "f"])]]}
-        files = [["en/zz", en], ["fr/zz", fr], ["en/aa", small_en], ["fr/aa", small_fr]]
-        cfg = {"default": "en", "locales": ["en", "fr"], "namespaces": ["zz", "aa"]}
-        units = [("en", "zz"), ("fr", "zz"), ("en", "aa"), ("fr", "aa")]
-        key_of_unit = {"zz": "zz.k0001", "aa": "aa.z"}
+        # a namespace without any literal text: its string table is EMPTY in every locale (a unit with no strings is still a unit,
+        # and must not disturb the units listed after it)
+        VARX = ["LB", "LB", "SP", "x", "SP", "RB", "RB"]
+        empty = {"t": "map", "e": [["v", S(VARX)], ["w", S(["LT", "b", "GT"] + VARX + ["LT", "SL", "b", "GT"])]]}
+        files = [["en/zz", en], ["fr/zz", fr], ["en/aa", small_en], ["fr/aa", small_fr], ["en/vv", empty], ["fr/vv", empty]]
+        cfg = {"default": "en", "locales": ["en", "fr"], "namespaces": ["zz", "aa", "vv"]}
+        units = [("en", "zz"), ("en", "vv"), ("fr", "zz"), ("en", "aa"), ("fr", "vv"), ("fr", "aa")]
+        key_of_unit = {"zz": "zz.k0001", "aa": "aa.z", "vv": 'vv.v, x = "a"'}
     else:
         files = [["en", en], ["fr", fr]]
         cfg = {"default": "en", "locales": ["en", "fr"]}
